@@ -1094,7 +1094,7 @@ type Reader struct {
 	ctx             map[string]any
 	parentCtx       *map[string]any
 	headless        bool
-	err             error // error of a failed block, reported once the blocks decoded before it are consumed
+	err             error // error of a failed block: returned by every Read from then on
 }
 
 type decodingTask struct {
@@ -1678,9 +1678,11 @@ func (this *Reader) Read(block []byte) (int, error) {
 			var err error
 
 			if this.available, err = this.processBlock(); err != nil {
-				// Deliver the blocks decoded before the failed one (if any), then the error
+				// Report the failure in the call that ran the batch: nothing of the
+				// failed batch is delivered, and the error is returned from now on
+				this.available = 0
 				this.err = err
-				continue
+				return len(block) - remaining, err
 			}
 
 			if this.available == 0 {
